@@ -13,7 +13,7 @@ import time
 from . import REPO, VERIF, PYTHON
 from . import findings as F
 
-MAX_VIOLATIONS_KEPT = 40
+MAX_VIOLATIONS_KEPT = 60
 MAX_SAMPLES = 6
 
 
@@ -42,6 +42,7 @@ class Acc(object):
         self.p = new_partial()
         self._sigs = set()
         self._feat = set()
+        self._per_mech = {}
 
     def ev(self, n=1):
         self.p['evaluations'] += n
@@ -70,9 +71,11 @@ class Acc(object):
         if F.is_known(prop, mechanism):
             self.p['known'][mechanism] = self.p['known'].get(mechanism, 0) + 1
             return False
-        if len(self.p['violations']) < MAX_VIOLATIONS_KEPT:
+        self._per_mech[mechanism] = self._per_mech.get(mechanism, 0) + 1
+        if self._per_mech[mechanism] <= 3 and len(self.p['violations']) < MAX_VIOLATIONS_KEPT:
             self.p['violations'].append(witness)
         self.count('violations_total')
+        self.count('violation:' + mechanism)
         return True
 
     def prereq(self, what):
@@ -90,6 +93,7 @@ def merge(parts):
     m = new_partial()
     sigs = set()
     feats = set()
+    per = {}
     for p in parts:
         m['evaluations'] += p['evaluations']
         sigs.update(p['sigs'])
@@ -103,7 +107,9 @@ def merge(parts):
             if v > m['maxima'].get(k, float('-inf')):
                 m['maxima'][k] = v
         for v in p['violations']:
-            if len(m['violations']) < MAX_VIOLATIONS_KEPT:
+            k = v.get('mechanism')
+            per[k] = per.get(k, 0) + 1
+            if per[k] <= 3 and len(m['violations']) < MAX_VIOLATIONS_KEPT:
                 m['violations'].append(v)
         for k, v in p['known'].items():
             m['known'][k] = m['known'].get(k, 0) + v
@@ -254,14 +260,14 @@ def main(argv=None):
     ap.add_argument('id')
     ap.add_argument('--tier', default=os.environ.get('VERIF_TIER', 'quick'), choices=['quick', 'thorough'])
     ap.add_argument('--seed', type=int, default=int(os.environ.get('VERIF_SEED', '0') or 0))
-    ap.add_argument('--workers', type=int, default=int(os.environ.get('PVF_WORKERS', '16')))
+    ap.add_argument('--workers', type=int, default=int(os.environ.get('PVF_WORKERS', '0')))
     ap.add_argument('--replay', default=None)
     a = ap.parse_args(argv)
     if a.id == 'selftest':
         return selftest()
     pid = a.id.upper()
-    ctx = Ctx(pid, a.tier, a.seed, a.workers)
     mod = importlib.import_module('pvf.checks.' + pid.lower())
+    ctx = Ctx(pid, a.tier, a.seed, a.workers or getattr(mod, 'WORKERS', 16))
     t0 = time.time()
 
     n, bad = self_check()
